@@ -43,7 +43,8 @@ func parseSlices(s string) ([]tensor.Slice, error) {
 			out[i] = nil
 			continue
 		}
-		f := strings.Split(p, ":")
+		viaS := strings.HasPrefix(p, "S") // build the slice with the library's constructor S(...)
+		f := strings.Split(strings.TrimPrefix(p, "S"), ":")
 		ns := make([]int, len(f))
 		for j := range f {
 			n, err := strconv.Atoi(f[j])
@@ -51,6 +52,13 @@ func parseSlices(s string) ([]tensor.Slice, error) {
 				return nil, err
 			}
 			ns[j] = n
+		}
+		if viaS {
+			if len(ns) < 1 || len(ns) > 3 {
+				return nil, fmt.Errorf("bad slice %q", p)
+			}
+			out[i] = tensor.S(ns[0], ns[1:]...)
+			continue
 		}
 		switch len(ns) {
 		case 1:
